@@ -295,3 +295,25 @@ def documented_deliver_order(prog):
         if mm:
             return [x.strip() for x in mm.group(1).split(",")]
     return ["topic", "payload", "qos", "dup", "retain", "msgId"]
+
+
+def rule_ack_reaches_fire(ctx, a, cls, rule, regs, acks):
+    """A retry routine that leaves the handle that just fired in the request (no re-arm, no clearing - e.g. it left by an exception before
+    either) makes the acknowledgement handler's alarm.cancel() raise AlreadyCalled in front of the callback: the acknowledgement arrives
+    and the Deferred never fires."""
+    from ..handles import handles
+    from .common import cls_short, where, short
+    hd = handles(a, cls)
+    seen = False
+    for ent, p, loc, tr, e in hd.fired_handles():
+        if tr.kind != "NET" or tr.name not in acks or not any(r in ".".join(loc) for r in regs):
+            continue
+        seen = True
+        ctx.ob(rule, "%s %s reaches the Deferred after cancelling the retry timer" % (cls_short(cls.qual), tr.name), False, where=where(e), function=e.func,
+               construct="%s/fired-handle/%s/%s" % (ent.func.qual, ".".join(loc), short(e.func)),
+               msg="timer routine %s can return with the handle that just fired still stored in %s; the %s handler then cancels it without "
+                   ".active(): AlreadyCalled leaves the handler before the Deferred of the request is fired" % (
+                       short(ent.func.qual), ".".join(loc), tr.name))
+    if not seen:
+        ctx.ob(rule, "%s no acknowledgement handler cancels a handle that already fired" % cls_short(cls.qual), True, nontrivial=False,
+               where=cls.module.path, construct="%s/fired-handle/acks" % cls.qual)
